@@ -7,7 +7,11 @@ children must be visited or answered conservatively (`false` = complex, do not p
 the same per-variant truthiness table (bool / non-zero / false / error).
 Does NOT decide that AND/OR/NOT implement Kleene logic, LIKE/BETWEEN semantics.
 The truthiness agreement also covers the inline keep/drop matches of the WHERE pipeline (scan-level filters,
-zero-copy filters, their parallel closures, the post-join filter), discovered from the code."""
+zero-copy filters, their parallel closures, the post-join filter), discovered from the code.The WHERE pre-processing is also covered: (fold) optimize_expression folds an expression to a literal only when every
+optimized child was tested to be a literal (a NULL column operand must keep a NULL result); (exact) the columnar
+predicate extractor accepts an expression only on paths that emit a predicate for it (it is the only filter of the
+ungrouped columnar aggregate path); (range) the C02 bound/flag pairing rule of the index range extractor.
+"""
 from ..engine.facts import callee_name, callee_path
 from ..engine.tables import enum_switches, switch_arm_regions
 from ..engine.cfg import op_const
@@ -143,3 +147,71 @@ def run(ctx):
               and not f.is_closure() and f.dk != 'Promoted' and f.nice not in TRUTHY]
     for o in others:
         ctx.finding(f'T8/unlisted/{o}', f'new truthiness function {o} is not in the agreement table', prog.by_nice[o][0].loc)
+
+
+    extra_rules(ctx)
+
+
+def extra_rules(ctx):
+    import re
+    from ..engine.symexpr import Sym
+    from ..engine.cfg import cfg
+    from ..engine.paths import search
+    from . import shared
+    prog = ctx.prog
+    # ---------------------------------------------------------------- (fold) constant folding only over literal children
+    ctx.rule('C06.fold', 'optimizer::expressions::optimize_expression: a block that builds a new Expression::Literal as the result is decided by a '
+             'Literal-discriminant test on the result of EVERY recursive optimize_expression call that dominates it (all children constant)')
+    oe = ctx.fn(EX + 'optimizer::expressions::optimize_expression')
+    g = cfg(oe)
+    sy = Sym(oe)
+    rec = [(i, t) for i, t in oe.calls() if callee_name(t) == oe.nice]
+    folds = []
+    for bi, b in enumerate(oe.blocks):
+        if b['t'].get('cleanup'):
+            continue
+        for st in b['s']:
+            if 'd' in st and st['v']['r'] == 'agg' and st['v'].get('variant') == 'Literal' and str(st['v'].get('adt', '')).endswith('::Expression'):
+                src = sy.op(st['v']['ops'][0]) if st['v']['ops'] else ''
+                if src.startswith('clone(') or '@Literal.0' in src and 'eval' not in src and 'branch(' not in src:
+                    continue            # re-wraps the literal it was given
+                folds.append((bi, src))
+    ctx.floor('C06.fold folding sites in optimize_expression', len(folds), 4)
+    for bi, src in folds:
+        doms = [(i, t) for i, t in rec if g.dominates(i, bi)]
+        conds = [c for c, _v in shared.deciding_conditions(oe, bi, sy)]
+        missing = []
+        for i, t in doms:
+            arg = sy.op(t['args'][0])
+            needle = f'optimize_expression({arg},'
+            if not any(c.startswith('discr(branch(' + needle) and c.endswith('@Continue.0)') for c in conds):
+                missing.append(arg)
+        ctx.instance(f'fold/{shared._ordinal(oe, bi)}@{len(doms)}', {'rule': 'C06.fold', 'loc': f'{oe.file}', 'children_optimised': len(doms), 'children_not_tested_literal': missing})
+        if missing:
+            ctx.finding(f'fold/{"+".join(m[-24:] for m in missing)}', f'optimize_expression folds to a literal although the child `{missing[0][:60]}` was not tested to be a '
+                        'literal: with a column (possibly NULL) there, the folded value is wrong for NULL rows — WHERE p, WHERE NOT p and '
+                        'WHERE p IS NULL no longer partition the rows', f'{oe.file}:{oe.blocks[bi]["t"]["l"]}')
+
+    # ---------------------------------------------------------------- (exact) accepted => predicate emitted
+    ctx.rule('C06.exact', 'select::columnar::filter::extract_predicates_recursive: every path that answers Some(()) (expression handled) passes a '
+             'push of a ColumnPredicate or a recursive extraction call')
+    ep = ctx.fn(EX + 'select::columnar::filter::extract_predicates_recursive')
+    emits = {i for i, t in ep.calls() if re.search(r'Vec::<T, A>::push$', re.sub(r'<[^<>]*>$', '', callee_name(t) or '')) or callee_name(t) == ep.nice
+             or (callee_name(t) or '').endswith('::push')}
+    somes = []
+    for bi, b in enumerate(ep.blocks):
+        for st in b['s']:
+            if 'd' in st and st['d'][0] == 0 and st['v']['r'] == 'agg' and st['v'].get('variant') == 'Some':
+                somes.append(bi)
+    ctx.floor('C06.exact Some(()) results in extract_predicates_recursive', len(somes), 3)
+    reached, _ = search(ep, [0], emits, loop_model=False)
+    bad = [b for b in somes if b in reached]
+    ctx.instance('exact/extract_predicates_recursive', {'rule': 'C06.exact', 'accepting_results': len(somes), 'accepting_without_emitting': len(bad)})
+    if bad:
+        ctx.finding('exact/accepted-without-predicate', 'extract_predicates_recursive answers "handled" for an expression form without emitting a predicate '
+                    'for it: the ungrouped columnar aggregate path filters with the extracted predicates only, so the conjunct is silently dropped '
+                    '(COUNT(*) counts rows the WHERE clause excludes)', f'{ep.file}:{ep.blocks[bad[0]]["t"]["l"]}')
+
+    # ---------------------------------------------------------------- (range) bound and inclusiveness travel together
+    from .C02 import range_pairing_rule
+    range_pairing_rule(ctx, 'C06.range')
